@@ -7,7 +7,7 @@
 //! * signature semantics are selected per harness through `SIGMODE`:
 //!   ORACLE  - `verify_v4` is an uninterpreted predicate: it logs what it was asked and returns the
 //!             symbolic answer `V_RET`
-//!   MAC     - sig = [id, len(msg), xor(msg), sum(msg), 0x55, 0x55][..sig_len], verified by
+//!   MAC     - sig = [id, len(msg), msg[1], msg[last], 0x55, 0x55][..sig_len], verified by
 //!             recomputation (total, cheap, not collision free: can make a harness miss, never alarm)
 use crate::verif_types::BTreeMap;
 use alloy_rlp::Error as DecoderError;
@@ -45,20 +45,21 @@ pub struct MKey {
     pub sig_len: u8,
 }
 
-/// MAC of the model scheme: [key id, len(msg), xor of all bytes, wrapping sum of all bytes]. The two
-/// folds are order-independent, so the harness can compute the expected value from the parts of a
-/// record (header, sequence number, keys, values) without laying out the encoding.
+/// MAC of the model scheme: [key id, len(msg), msg[1], msg[n-1]] - the signer, the length of the
+/// signed content, the first byte of the sequence-number item and the last byte of the last value.
+/// Deliberately few reads: every read of an encoded buffer joins CBMC's array-theory index sets
+/// of all buffers it was copied from, and the constraints grow quadratically (measured: `verify()`
+/// or one byte of `encode()` read after an update step exhausts 40 GB). Not collision free: it can
+/// make a harness miss a stale signature over content of the same length, seq and tail; never alarm.
 pub const MSG_MAX: usize = 48;
 #[inline(always)]
 pub fn mac4(id: u8, msg: &[u8]) -> [u8; 4] {
     let n = msg.len();
     assert!(n <= MSG_MAX, "harness bound: signed message longer than MSG_MAX");
-    let (mut x, mut s) = (0u8, 0u8);
-    rep48!(|i: usize| if i < n {
-        x ^= msg[i];
-        s = s.wrapping_add(msg[i]);
-    });
-    [id, n as u8, x, s]
+    if n < 2 {
+        return [id, n as u8, 0, 0];
+    }
+    [id, n as u8, msg[1], msg[n - 1]]
 }
 
 /// order-independent fold of a byte string: (xor, sum, length)
@@ -111,10 +112,25 @@ pub fn fold_content(seq: u64, pairs: &[(&[u8], &[u8])]) -> Fold {
     f
 }
 
-/// the MAC of `id` over the content list, computed from the parts
+/// the MAC of `id` over the content list [seq, pairs...], computed from the parts (no buffer)
 pub fn ref_mac(id: u8, seq: u64, pairs: &[(&[u8], &[u8])]) -> [u8; 6] {
-    let f = fold_content(seq, pairs);
-    [id, f.n as u8, f.x, f.s, 0x55, 0x55]
+    let n = ref_content_len(seq, pairs);
+    let (se, _) = crate::refmodel::ref_u64_enc(seq);
+    // last byte of the message: last byte of the last value (pairs is never empty here)
+    let lastv = pairs[pairs.len() - 1].1;
+    let last = if lastv.is_empty() { 0 } else { lastv[lastv.len() - 1] };
+    [id, n as u8, se[0], last, 0x55, 0x55]
+}
+
+/// length of the content list encoding [seq, pairs...] (what is signed)
+pub fn ref_content_len(seq: u64, pairs: &[(&[u8], &[u8])]) -> usize {
+    let mut n = crate::refmodel::ref_u64_len(seq);
+    rep6!(|i: usize| if i < pairs.len() {
+        let k = pairs[i].0;
+        n += if k.len() == 1 && k[0] < 0x80 { 1 } else { 1 + k.len() };
+        n += pairs[i].1.len();
+    });
+    n + crate::refmodel::list_hdr_len(n)
 }
 
 /// length of the full record encoding [sig, seq, pairs...] computed from the parts
